@@ -558,6 +558,43 @@ func (e detEngine) compare(ctx *simrt.Ctx, opts simnode.Opts, en, twin *env, cha
 			return v
 		}
 	}
+	// Many goroutines derive the identities of the block's transactions at once
+	// (the signature-check pool, the duplicate checks and the index all do): every
+	// one of them must get the bytes a lone goroutine gets.
+	{
+		want := make([][2][]byte, len(blk.Txs))
+		for i, tx := range blk.Txs {
+			want[i] = [2][]byte{tx.Hash(), tx.FullHash()}
+		}
+		runtime.GOMAXPROCS(4)
+		var wg sync.WaitGroup
+		var bad atomic.Value
+		for g := 0; g < 24; g++ {
+			wg.Add(1)
+			go func(g int) {
+				defer wg.Done()
+				for round := 0; round < 40 && bad.Load() == nil; round++ {
+					for i := range blk.Txs {
+						tx := blk.Txs[(i+g)%len(blk.Txs)]
+						w := want[(i+g)%len(blk.Txs)]
+						if h := tx.Hash(); !bytes.Equal(h, w[0]) {
+							bad.Store(fmt.Sprintf("Transaction.Hash of transaction %d: %x alone, %x with 24 goroutines hashing", (i+g)%len(blk.Txs), w[0], h))
+							return
+						}
+						if h := tx.FullHash(); !bytes.Equal(h, w[1]) {
+							bad.Store(fmt.Sprintf("Transaction.FullHash of transaction %d: %x alone, %x with 24 goroutines hashing", (i+g)%len(blk.Txs), w[1], h))
+							return
+						}
+					}
+				}
+			}(g)
+		}
+		wg.Wait()
+		ctx.Fault("concurrent_hashing")
+		if b := bad.Load(); b != nil {
+			return ctx.Violate("nondeterministic-exec", "transaction-identity-under-concurrency", "%s", b.(string))
+		}
+	}
 	// A transient fault of the execution environment while the block executes
 	// (the bus times out under a contract's API call): that execution must be
 	// abandoned with an error, never turned into receipts that another execution
